@@ -355,7 +355,17 @@ def axis(rep, prog, rule):
                 continue
             sa = [sym.operand(a) for a in src[0].args]
             da = [sym.operand(a) for a in dst[0].args]
-            off_ok = sa[1] == ("param", f.param_index("src_offset"), "src_offset")
+            # roles by type / position: the two views, then the u32 offset
+            oi = f.param_index("src_offset")
+            if oi is None:
+                u32s = [i for i in range(1, f.arg_count + 1) if f.local_ty(i) == "u32"]
+                oi = u32s[0] if len(u32s) == 1 else None
+            di = f.param_by_role("dst_view")
+            if oi is None or di is None:
+                rep.unk(rule, key, f.loc, "offset / destination parameters of %s not identified" % name)
+                continue
+            DSTN = f.local_name(di)
+            off_ok = sa[1] == ("param", oi, f.local_name(oi))
             if not off_ok:
                 rep.bad(rule, key + "|src-offset", src[0].at, "source split starts at %s"
                         % fmt(sa[1]))
@@ -370,7 +380,7 @@ def axis(rep, prog, rule):
                 ext = "height" if kind == "h" else "width"
                 sz = sa[2]
                 szs = fmt(sz)
-                if (ext + "(dst_view)") in szs:
+                if (ext + "(%s)" % DSTN) in szs:
                     rep.ok(rule, key, f.loc, "src(%s,%s,%s) / dst(0,%s,%s)" % (
                         fmt(sa[1]), szs, fmt(sa[3]), szs, fmt(sa[3])))
                 else:
